@@ -113,8 +113,13 @@ fn ledgers_part(ctx: &mut Ctx) {
         let all_raw = run_impl::impl_calc_raw(&l, None, ex);
         let all = match &all_raw { Err(p) => Err(rep::RErr { kind: "panic".into(), detail: p.clone() }), Ok(Err(e)) => Err(rep::classify_err(e)), Ok(Ok(x)) => Ok(rep::from_report(x)) };
         let msd = multi_sell_day(&l);
+        // projection of this property: which years exist, which disposals (date, ticker) sit in
+        // which year, error classes; no quantities, no money, no legs
+        let _ = msd;
         let mut p = Proj::full();
-        if msd { p.legs_exact = false; }
+        p.money = false;
+        p.qty = false;
+        p.legs_none = true;
         if let Err(e) = &all { ctx.ev.count(&format!("all-years:rejected:{}", e.kind)); if e.kind == "panic" { ctx.ev.violation("crash", e.detail.clone(), replay_text(prop, "crash", &e.detail, &l, &[])); } }
         // oracle (a): every disposal sits in the year the statute gives, years strictly ascending
         if let Ok(Ok(rep_all)) = &all_raw {
